@@ -200,7 +200,9 @@ static std::string cmd_exec(const std::vector<std::string>& a) {
     std::vector<std::string> toks = a.size() > 9 && a[9] != "-" ? split(a[9], ',') : std::vector<std::string>();
     Instance inst; std::string why;
     if (!setup(inst, c, why)) return why;
-    for (size_t i = 0; i < nsteps; i++) { if (inst.at_end() || !inst.step()) return "PREFIX-FAILED"; }
+    // EXECF: a failing step of the prefix ends the prefix (the session stays where it was) and exec follows it
+    const bool lenient = a[0] == "EXECF";
+    for (size_t i = 0; i < nsteps; i++) { if (inst.at_end() || !inst.step()) { if (lenient) break; return "PREFIX-FAILED"; } }
     std::string before = full_state(inst);
     valtype script_before(inst.env->script.begin(), inst.env->script.end());
     std::vector<char*> argv;
@@ -461,7 +463,7 @@ static std::string dispatch(const std::string& line) {
         if (a[0] == "SNSWEEP") return cmd_snsweep(a);
         if (a[0] == "RUN") return cmd_run(a, false);
         if (a[0] == "RUNV") return cmd_run(a, true);
-        if (a[0] == "EXEC") return cmd_exec(a);
+        if (a[0] == "EXEC" || a[0] == "EXECF") return cmd_exec(a);
         if (a[0] == "FLAGS") return cmd_flags(a);
         if (a[0] == "TCE") return cmd_tce(a);
         { auto it = extra_cmds().find(a[0]); if (it != extra_cmds().end()) return it->second(a); }
